@@ -299,6 +299,73 @@ theorem cmuJ_bcast {s s' : CState} (h : cstep s .bcast = some s') :
   refine ⟨?_, rfl⟩
   simp [cmuJ, cwakeAll]; omega
 
+/-! ### ranking while kill requests are pending (workerKill > 0) -/
+
+def CEvent.isKillExit : CEvent → Bool
+  | .killExit => true
+  | _ => false
+
+/-- distance of the pool from the next kill request being TAKEN while workerKill > 0: no worker passes the
+    kill check (`killPass` is disabled), so every worker only moves towards the loop head, where it takes
+    a request -/
+def cmuK (s : CState) : Nat :=
+  34 * s.cnt .chkF + 33 * s.cnt .drained + 33 * s.cnt .chkT + 32 * s.cnt .run + 31 * s.cnt .noTask + 30 * s.cnt .idleReg
+  + 29 * s.cnt .willWait + 28 * s.cnt .waiting + 27 * s.cnt .woken + 26 * s.cnt .hasL + 25 * s.cnt .readQT
+  + 25 * s.cnt .readQF + 9 * s.cnt .unlocking + 8 * s.cnt .unreg + 7 * s.cnt .head + 4 * s.cnt .exiting
+  + 2 * s.pushed + s.adderL + 2 * s.swcPend + s.swcL
+
+set_option maxHeartbeats 1600000 in
+theorem cmuK_step {s s' : CState} {e : CEvent} (h : cstep s e = some s') (hi : e.internal = true)
+    (hx : e.isKillExit = false) (hk : 0 < s.kill) : cmuK s' + 1 ≤ cmuK s ∧ s'.kill = s.kill := by
+  have hk1 : s.kill ≠ -1 := by omega
+  have hk0 : s.kill ≠ 0 := by omega
+  cases e with
+  | aPush => simp [CEvent.internal] at hi
+  | swcUp _ => simp [CEvent.internal] at hi
+  | swcDown _ => simp [CEvent.internal] at hi
+  | swcSet _ => simp [CEvent.internal] at hi
+  | joinKill => simp [CEvent.internal] at hi
+  | bcast => simp [CEvent.internal] at hi
+  | killExit => simp [CEvent.isKillExit] at hx
+  | killPass => simp [cstep, hk] at h
+  | pop ok =>
+    cases ok <;> simp [cstep, CState.mv] at h <;> obtain ⟨_, _, rfl⟩ := h <;>
+      refine ⟨?_, rfl⟩ <;> simp [cmuK, move] <;> omega
+  | popNone ok =>
+    cases ok <;> simp [cstep, CState.mv] at h <;> obtain ⟨_, _, rfl⟩ := h <;>
+      refine ⟨?_, rfl⟩ <;> simp [cmuK, move] <;> omega
+  | drainExit =>
+    simp [cstep, CState.mv, hk1] at h
+    obtain ⟨_, rfl⟩ := h
+    refine ⟨?_, rfl⟩; simp [cmuK, move]; omega
+  | readQ =>
+    simp only [cstep] at h
+    split at h <;> simp [CState.mv] at h <;> obtain ⟨_, rfl⟩ := h <;>
+      refine ⟨?_, rfl⟩ <;> simp [cmuK, move] <;> omega
+  | readKill p =>
+    cases p <;> simp [cstep, CState.mv, hk0] at h <;> obtain ⟨_, rfl⟩ := h <;>
+      refine ⟨?_, rfl⟩ <;> simp [cmuK, move] <;> omega
+  | aSignal w =>
+    cases w <;> simp [cstep, CState.mv] at h <;> obtain ⟨_, _, rfl⟩ := h <;>
+      refine ⟨?_, rfl⟩ <;> simp [cmuK, move] <;> omega
+  | swcBcast =>
+    simp [cstep] at h; obtain ⟨_, rfl⟩ := h
+    refine ⟨?_, rfl⟩; simp [cmuK, cwakeAll]; omega
+  | _ =>
+    simp [cstep, CState.mv, clockFree, holders] at h <;>
+    (first
+      | (obtain ⟨_, _, rfl⟩ := h)
+      | (obtain ⟨_, rfl⟩ := h)
+      | subst h) <;>
+    refine ⟨?_, rfl⟩ <;> simp [cmuK, move] <;> omega
+
+/-- polling broadcasts do not raise the pop measure -/
+theorem cmu_bcast {s s' : CState} (h : cstep s .bcast = some s') :
+    cmu s' ≤ cmu s ∧ s'.queue = s.queue := by
+  simp [cstep] at h; subst h
+  refine ⟨?_, rfl⟩
+  simp [cmu, cwakeAll]; omega
+
 /-- reachable states of the per-worker LTS abstract to reachable counting states -/
 theorem reachable_abs {s : State} (h : Reachable repaired s) : CReachable (abs s) := by
   obtain ⟨es, hes⟩ := h
